@@ -22,7 +22,7 @@ PLANS = {
     },
     "C03": {
         "level": "other",
-        "sidecars": ["serialise", "params", "driver", "grouping"],
+        "sidecars": ["serialise", "params", "driver", "grouping", "patching"],
         "extras": [{"name": "c03_atom_set_table", "module": "tables.x_checks", "func": "c03_atom_sets", "python": "vt"},
                    {"name": "c07_records", "module": "bounded.c07_records", "func": "run", "python": "venv", "timeout": 3000}],
         "explanation": "Contracts decide the bookkeeping: apply_force_field partitions the model into written / unassigned, "
@@ -35,7 +35,7 @@ PLANS = {
     },
     "C11": {
         "level": "other",
-        "sidecars": [],
+        "sidecars": ["patching"],
         "extras": [{"name": "c11_effect_analysis", "module": "checks.effects", "func": "run", "python": "vt"},
                    {"name": "c11_history", "module": "bounded.c11_history", "func": "run", "python": "venv"}],
         "explanation": "Frame/effect analysis over the whole package: every site that iterates a hash-ordered collection, "
@@ -103,7 +103,7 @@ PLANS = {
     },
     "C02": {
         "level": "proof",
-        "sidecars": ["charges", "driver"],
+        "sidecars": ["charges", "driver", "patching"],
         "extras": [{"name": "c02_charge_table", "module": "tables.x_checks", "func": "c02_charges", "python": "vt"},
                    {"name": "c02_termini", "module": "bounded.c02_termini", "func": "run", "python": "venv"}],
         "explanation": "state naming, residue charge, integrality guard and per-chain termini proved; force-field data "
@@ -118,7 +118,7 @@ PLANS = {
     },
     "C13": {
         "level": "proof",
-        "sidecars": ["ssbridge"],
+        "sidecars": ["ssbridge", "patching"],
         "extras": [],
         "explanation": "update_ss_bridges on 2-4 cysteines with symbolic coordinates, numbering and chains",
     },
